@@ -48,6 +48,9 @@ def run(ctx):
     def iop(nsp):
         h = rs.randn(nsp, nsp); h = (h + h.T) / 2
         eri = rand_eri(rng, nsp) * rs.rand()
+        k_ = rng.random()
+        if k_ < 0.35: eri = eri - rand_eri(rng, nsp) * rs.rand()      # indefinite interaction matrix (pq|rs): negative eigenvalues
+        elif k_ < 0.5: eri = -eri                                      # attractive interaction: negative semidefinite
         one, two = spinorb_from_spatial(h, eri)
         return of.InteractionOperator(float(rs.randn()), one, 0.5 * two)
     def Hmat(ham, n): return of.get_sparse_operator(of.get_fermion_operator(ham), n).toarray()
